@@ -298,6 +298,7 @@ class GraphStream(TripleStream):
         self.ensure_usable()
         graph_start = jelly.RdfGraphStart()
         try:
+            self.encoder.new_statement()
             [*graph_rows] = self.encoder.encode_graph(graph_id, graph_start)
         except BaseException:
             self.failed = True
